@@ -38,7 +38,7 @@ pub static DEF: PropDef = PropDef {
 	watchdog_s: 30,
 };
 
-const OPS: usize = 11; // read 0,1,2,3,5 | prefix 0,1,2,3,5 | re-borrow
+const OPS: usize = 14; // read 0,1,2,3,5 | prefix 0,1,2,3,5 | re-borrow | read_exact 1,3 | read_to_end
 const SIZES: [usize; 5] = [0, 1, 2, 3, 5];
 
 fn prog_len(t: Tier) -> usize {
@@ -89,6 +89,10 @@ fn runs(t: Tier) -> u64 {
 fn op_json(code: usize) -> J {
 	if code == 10 {
 		json!("reborrow")
+	} else if code == 11 || code == 12 {
+		json!({"exact": if code == 11 { 1 } else { 3 }})
+	} else if code == 13 {
+		json!("toend")
 	} else if code < 5 {
 		json!({"read": SIZES[code]})
 	} else {
@@ -131,9 +135,11 @@ fn gen_program(seed: u64, idx: u64, t: Tier) -> J {
 	let mut ops = vec![];
 	for _ in 0..nops {
 		let big = |r: &mut Rng| if r.chance(1, 5) { r.log_range(1, 70_000) } else { r.range(0, 40) };
-		ops.push(match r.below(7) {
+		ops.push(match r.below(9) {
 			0..=2 => json!({"read": big(&mut r)}),
 			3 | 4 => json!({"prefix": big(&mut r)}),
+			5 => json!({"exact": if r.chance(1, 2) { r.range(0, 9) } else { big(&mut r) }}),
+			6 if r.chance(1, 3) => json!("toend"),
 			_ => json!("reborrow"),
 		});
 	}
@@ -393,6 +399,8 @@ fn eval_program(case: &J) -> Eval {
 	let mut flipped = false;
 	let mut reborrow_after_partial = false;
 	let mut fin_kind = "";
+	let mut n_exact = 0u64;
+	let mut short_exact = false;
 	let v = guarded(|| {
 		let mut h = Handle::from_reader(rd);
 		// Group operations into borrows.
@@ -404,23 +412,37 @@ fn eval_program(case: &J) -> Eval {
 				groups.last_mut().unwrap().push(RefOp::Read(n as usize));
 			} else if let Some(n) = op.get("prefix").and_then(J::as_u64) {
 				groups.last_mut().unwrap().push(RefOp::Prefix(n as usize));
+			} else if let Some(n) = op.get("exact").and_then(J::as_u64) {
+				groups.last_mut().unwrap().push(RefOp::ReadExact(n as usize));
+			} else if op.as_str() == Some("toend") {
+				groups.last_mut().unwrap().push(RefOp::ReadToEnd);
 			}
 		}
 		// Reference model: within a borrow, `pos` bytes of D have been read; the
 		// producer may be asked for at most `reach` bytes in total.
 		let mut reach = 0usize;
 		let mut prev_partial = false;
+		let _ = (&n_exact, &short_exact);
 		for (gi, g) in groups.iter().enumerate() {
 			if gi > 0 && prev_partial {
 				reborrow_after_partial = true;
 			}
 			let mut pos = 0usize;
+			let eintr_before = st.borrow().eintr_fired;
 			let results = h.borrow_ops(g);
+			// read_exact and read_to_end retry an Interrupted read themselves. When one of
+			// them absorbed a transient error, the position of this borrow is unspecified
+			// from that operation on (as after a surfaced error).
+			let surfaced = results.iter().filter(|r| matches!(r, RefOpResult::Read(Err(e)) | RefOpResult::Prefix(Err(e)) if e.kind() == std::io::ErrorKind::Interrupted)).count() as u64;
+			let absorbed = st.borrow().eintr_fired - eintr_before > surfaced;
 			let mut slice_mode = false;
 			// After a transient producer error inside a borrow the read position of
 			// that borrow is unspecified; the next borrow starts from offset 0 again.
 			let mut tainted = false;
 			for (op, res) in g.iter().zip(results) {
+				if absorbed && matches!(op, RefOp::ReadExact(_) | RefOp::ReadToEnd) {
+					tainted = true;
+				}
 				match (op, res) {
 					(_, RefOpResult::Slice(b)) => {
 						slice_mode = true;
@@ -458,7 +480,42 @@ fn eval_program(case: &J) -> Eval {
 							viol.push(("program/prefix-too-short".into(), format!("borrow {gi}: prefix({n}) returned {} bytes of a {}-byte stream", b.len(), d.len())));
 						}
 					}
-					(_, RefOpResult::Read(Err(e)) | RefOpResult::Prefix(Err(e))) => {
+					(RefOp::ReadExact(_) | RefOp::ReadToEnd, RefOpResult::ReadExact(Ok(b)) | RefOpResult::ReadToEnd(Ok(b))) if tainted => {
+						// (a call made of several reads may have lost replayed bytes in its middle:
+						// what it returns is then a subsequence of the stream, never foreign bytes)
+						let mut it = d.iter();
+						if !b.iter().all(|x| it.any(|y| y == x)) {
+							viol.push(("program/read-fabricated-bytes".into(), format!("borrow {gi}: after a failed read a read_exact/read_to_end returned {:?}, which is not made of bytes of the stream in their order", show(&b))));
+						}
+					}
+					(RefOp::ReadExact(n), RefOpResult::ReadExact(Ok(b))) => {
+						n_exact += 1;
+						reach = reach.max(pos + n);
+						if b.len() != *n || pos + n > d.len() || d[pos..pos + n] != b[..] {
+							viol.push(("program/read-exact-wrong-bytes".into(), format!("borrow {gi}: read_exact({n}) at offset {pos} of {} succeeded with {:?}, the stream has {:?} there", d.len(), show(&b), show(&d[pos.min(d.len())..(pos + n).min(d.len())]))));
+						}
+						pos = (pos + n).min(d.len());
+					}
+					(RefOp::ReadExact(n), RefOpResult::ReadExact(Err(e))) if e.kind() == std::io::ErrorKind::UnexpectedEof => {
+						n_exact += 1;
+						short_exact = true;
+						reach = reach.max(pos + n);
+						if pos + n <= d.len() && !tainted {
+							viol.push(("program/read-exact-premature-eof".into(), format!("borrow {gi}: read_exact({n}) at offset {pos} of {} failed with UnexpectedEof although {} bytes remain", d.len(), d.len() - pos)));
+						}
+						// How much of the rest the failed call consumed is unspecified for this borrow;
+						// the next borrow, every prefix and the final owner still see the whole stream.
+						tainted = true;
+					}
+					(RefOp::ReadToEnd, RefOpResult::ReadToEnd(Ok(b))) => {
+						n_exact += 1;
+						reach = usize::MAX;
+						if d[pos.min(d.len())..] != b[..] {
+							viol.push(("program/read-to-end-wrong-bytes".into(), format!("borrow {gi}: read_to_end at offset {pos} returned {} bytes {:?}, the rest of the stream is {} bytes {:?}", b.len(), show(&b), d.len() - pos.min(d.len()), show(&d[pos.min(d.len())..]))));
+						}
+						pos = d.len();
+					}
+					(_, RefOpResult::Read(Err(e)) | RefOpResult::Prefix(Err(e)) | RefOpResult::ReadExact(Err(e)) | RefOpResult::ReadToEnd(Err(e))) => {
 						if e.kind() == std::io::ErrorKind::Interrupted && st.borrow().eintr_fired > 0 {
 							tainted = true;
 						} else {
@@ -530,6 +587,8 @@ fn eval_program(case: &J) -> Eval {
 	ev.count("program.eintr.fired", st.borrow().eintr_fired);
 	ev.count("program.flipped_to_slice", u64::from(flipped));
 	ev.count("program.reborrow_after_partial_read", u64::from(reborrow_after_partial));
+	ev.count("program.read_exact_or_to_end", n_exact);
+	ev.count("program.read_exact_cut_short_by_eof", u64::from(short_exact));
 	ev.count(
 		match fin_kind {
 			"cow" => "program.into_cow",
@@ -587,7 +646,7 @@ fn shrink(case: &J) -> Vec<J> {
 		}
 	}
 	for (i, op) in ops.iter().enumerate() {
-		for key in ["read", "prefix"] {
+		for key in ["read", "prefix", "exact"] {
 			if let Some(n) = op.get(key).and_then(J::as_u64) {
 				for m in [0, n / 2, n.saturating_sub(1)] {
 					if m < n {
